@@ -117,7 +117,7 @@ def constants_fp():
         'Intervals': tuple(TR.Intervals.items()),
         'IntervalsByName': tuple(TR.IntervalsByName.items()),
         'AVAILABLE_INTERVALS': tuple(TR.AVAILABLE_INTERVALS),
-        'kp.HEADERS is': id(kp.HEADERS) == id(TK.HEADERS),
+        'HEADERS_len': len(TK.HEADERS),
     }
 
 
